@@ -472,7 +472,7 @@ def write_evidence(ctx, violations, rule, extra_assumptions=None):
             "what": "scalar / decision kernels translated from /repo's current source by harness/srctie.py and proved equal, for all inputs, to the model functions (Coq, this run)",
             "kernels": [{k2: v for k2, v in k.items() if k2 != "detail" or k["status"] != "proved"} for k in t.get("kernels", [])],
             "proved": t.get("proved", 0), "total": t.get("total", 0), "wall_s": t.get("wall_s"),
-            "policy": "unproved (translated, equality fails) = broken tie, reported; untranslatable = tie not available for that kernel, correspondence only",
+            "policy": "unproved (translated, equality fails) = broken tie, reported — except kernels marked strict=false (transcendental identities are outside the generic tactics; an unproved one is decided by the correspondence); untranslatable = tie not available for that kernel, correspondence only",
         }
         if t.get("error"):
             cov["source_translation_tie"]["error"] = t["error"]
@@ -532,7 +532,7 @@ def run_property(pid, mod, tier, seed, replay=None):
                            "failed_theorem": ctx.coq.get("failed_theorem"), "log": ctx.coq["log"][-3000:]})
         if ctx.disagreements:
             broken.append({"kind": "correspondence", "count": len(ctx.disagreements), "first": ctx.disagreements[:5]})
-        tie_unproved = [k for k in (ctx.tie or {}).get("kernels", []) if k["status"] == "unproved"]
+        tie_unproved = [k for k in (ctx.tie or {}).get("kernels", []) if k["status"] == "unproved" and k.get("strict", True)]
         if tie_unproved:
             # a kernel of the source translated into the supported fragment but is no longer provably equal to the model function
             broken.append({"kind": "source-translation-tie",
